@@ -2,7 +2,12 @@
   sub-driver `conc` (C14, C20). Scenario lines (everything else the harness does is oracle-only, `#…`):
     close <n> <errmask> <seed>   one pseudo-random schedule of the Close system (configuration read from the regenerated
                                  skeleton), sampled at the moment main returns      → calls=1,1,… done=1,1,…
+    closez <n> <errmask> <zmask> <seed>
+                                 the same system: which of the n closers are values of zero-size types (zmask) is a matter of
+                                 representation; each of them is a registered closer component like any other
     scan <n> <failmask> <seed>   same for one scanning round; completed appends to errs when main reads it → errs=<k>
+    fstart <n> <kinds> <seed>    the first start of a process with one dependency and n tag-carrying components: one scanning
+                                 round over n+1 components in which no scanner fails                → errs=0
     lofn <digits>                two callers LoadOrStoreFn(1, 10+t) on an empty map, schedule = thread per step
                                                                                     → t0=<v>,<loaded> t1=<v>,<loaded>
     range <nk> <a>               Range over keys 1..nk; after a visits another thread deletes every key, visited first
@@ -105,6 +110,12 @@ def handle (line : String) : String :=
   | ["close", n, mask, seed] =>
     let n := natOr n 0
     showClose n (runFan (closeShape Facts.closeSkel).cfg n (natOr mask 0) (natOr seed 0))
+  | ["closez", n, mask, _zmask, seed] =>
+    let n := natOr n 0
+    showClose n (runFan (closeShape Facts.closeSkel).cfg n (natOr mask 0) (natOr seed 0))
+  | ["fstart", n, _kinds, seed] =>
+    let s := runFan (scanShape Facts.scanSkel).cfg (natOr n 0 + 1) 0 (natOr seed 0)
+    if s.mainPc != 3 then "stuck" else "errs=" ++ toString s.acc
   | ["scan", n, mask, seed] =>
     let s := runFan (scanShape Facts.scanSkel).cfg (natOr n 0) (natOr mask 0) (natOr seed 0)
     if s.mainPc != 3 then "stuck" else "errs=" ++ toString s.acc
